@@ -74,7 +74,7 @@ namespace AIToolbox::MDP {
                 double rhs;
                 if constexpr(IsModelEigen<M>) {
                     lp.row = -model.getDiscount() * model.getTransitionFunction(a).row(s);
-                    rhs = model.getRewardFunction()(s, a);
+                    rhs = model.getRewardFunction().coeff(s, a);
                 } else {
                     // For each constraint, we compute the RHS, while at the same
                     // time setting the coefficients for the various variables.
